@@ -273,23 +273,24 @@ class C01(CoreProp):
         return mon_evt_only_running(case, ctr) + mon_running_count(case, ctr)
 
 class C02(CoreProp):
+    scenario = staticmethod(GC.gen_subs_case)
     pid = 'C02'; props_file = 'Props_C02'; focus = {'ps'}
     proj = Proj(rets=('tell', 'publish', 'broadcast', 'pill'), cb=cb_ps, keep=('freedata',))
     rule = ('corpus + random programs biased to subscribe/tell/publish/broadcast (literal and regular-expression topics, auto-free '
-            'payloads, pause/stop/deregister between send and delivery) + pipe-overflow bursts; non-trivial = distinct script delivering >= 2 messages')
+            'payloads, pause/stop/deregister between send and delivery) + subscription scenarios (one-shot / replaced / updated / removed subscriptions with a message in flight) + pipe-overflow bursts; non-trivial = distinct script delivering >= 2 messages')
     def monitors(self, case, ctr): return mon_messages(case, ctr)
     def nontrivial(self, case, ctr):
         return ctr is not None and sum(1 for l in ctr if l.startswith('cb ') and ' 0:' in l) >= 2
     def extra_cases(self, tier, seed, ctx):
         # bursts beyond the pipe capacity (8192 messages): the overflowing copies must be dropped cleanly, nobody else is affected
-        return [('burst%d' % i, ) + GC.gen_burst_case(case_rng(seed, self.pid + 'burst', i), ctx['params']) for i in range(6 if tier == 'quick' else 60)]
+        return super().extra_cases(tier, seed, ctx) + [('burst%d' % i, ) + GC.gen_burst_case(case_rng(seed, self.pid + 'burst', i), ctx['params']) for i in range(6 if tier == 'quick' else 60)]
 
 class C03(CoreProp):
-    scenario = staticmethod(GC.gen_sources_case)
+    scenario = staticmethod(GC.gen_sources_or_subs_case)
     pid = 'C03'; props_file = 'Props_C03'; focus = {'src', 'pill', 'errno', 'ps'}; loop_share = 0.4
     proj = Proj(rets=('srclen',), exact=('loop', 'dispatch', 'quit'), cb=cb_full, keep=('close',))
     rule = ('corpus + random programs with descriptor/timer/signal sources (one-shot and persistent), environment actions between dispatches '
-            'and inside blocking loops, quit/stop/pause around pending events, errno left by callbacks; non-trivial = distinct script delivering >= 1 non-pubsub event')
+            'and inside blocking loops, quit/stop/pause around pending events, errno left by callbacks, one-shot subscriptions replaced while a message is in flight; non-trivial = distinct script delivering >= 1 non-pubsub event')
     def monitors(self, case, ctr): return mon_userdata(case, ctr) + mon_evt_only_running(case, ctr)
     def nontrivial(self, case, ctr):
         return ctr is not None and any(l.startswith('cb ') and re.search(r' [1-7]:', l) for l in ctr)
@@ -320,10 +321,11 @@ class C08(CoreProp):
         return ctr is not None and sum(len([x for x in l.split()[6:] if x.startswith('0:')]) for l in ctr if l.startswith('cb ')) >= 3
 
 class C09(CoreProp):
+    scenario = staticmethod(GC.gen_subs_case)
     pid = 'C09'; props_file = 'Props_C09'; focus = {'src'}
     proj = Proj(exact=('srcreg', 'srcdereg', 'srclen', 'sub', 'unsub'))
     rule = ('corpus + random register/deregister/length sequences per source kind (descriptor, timer, signal, path, threshold, task refusal, '
-            'subscriptions) on idle/running/paused/stopped modules, keys incl. 0 and repeated keys, bad priority flags; '
+            'subscriptions incl. one-shot ones replaced while a message is in flight) on idle/running/paused/stopped modules, keys incl. 0 and repeated keys, bad priority flags; '
             'non-trivial = distinct script with >= 3 registry calls')
     def nontrivial(self, case, ctr):
         return sum(1 for l in case[2] if l.split()[0] in ('srcreg', 'srcdereg', 'sub', 'unsub')) >= 3
